@@ -172,6 +172,17 @@ Definition holds_none (own : list nat) (t : nat) (l : list event) : bool :=
   forallb (fun s => net_held s l =? 0) [1%nat; 2%nat; 4%nat; (8 + 2 * proc_of own t)%nat].
 Definition evs_of_thread (t : nat) (es : list event) : list event :=
   filter (fun e => let '(t', _, _, _) := e in Nat.eqb t' t) es.
+(* every whole message is written to the pipe by a thread that holds the writer lock at that moment
+   (the "reader and writer locks around whole messages" mechanism: writes of two processes never interleave) *)
+Fixpoint sends_locked (pre es : list event) : bool :=
+  match es with
+  | [] => true
+  | e :: r =>
+    let '(t, o, op, _) := e in
+    (if Nat.eqb o PIPE && (op =? 3) then net_held 2%nat (evs_of_thread t (rev pre)) =? 1 else true)
+    && sends_locked (e :: pre) r
+  end.
+
 Fixpoint locks_ok (own : list nat) (es : list event) (ks : list nat) (t : nat) (res : list (list Z)) (fins : list bool) : bool :=
   match res, fins with
   | rs :: res', f :: fins' =>
@@ -344,7 +355,8 @@ Definition qmonitors (kind maxsize : Z) (scripts : list (list qcall)) (own : lis
   && (if (kind <? 2) && negb (endk =? 2) && forallb (fun b => b) (evens fins) && quiet_feeders own 0 pend
          && negb (feeder_ended fins)
       then delivered_ok own scripts res pend es 0 scripts res pend else true)
-  && one_feeder_ok own (length scripts) es && clear_ok es.
+  && one_feeder_ok own (length scripts) es && clear_ok es
+  && sends_locked [] es.
 
 (* ------------------------------------------------------------------ correspondence *)
 Definition qmodel_obs (maxsize : Z) (scripts : list (list qcall)) (own : list nat) (sched : list (nat * bool)) :=
